@@ -209,4 +209,27 @@ dst5 = os.path.join(HERE, "src", "gen_follower.rs")
 if not os.path.exists(dst5) or open(dst5).read() != foll_txt:
     open(dst5, "w").write(foll_txt)
 foll_sha = hashlib.sha256(("\n".join(ftxts) + ximpl).encode()).hexdigest()
-print(json.dumps({"calculate_new_commit_index_sha256": leader_sha, "retrieve_to_be_synced_logs_for_peers_sha256": repl_sha, "follower_append_slices_sha256": foll_sha, "buffered_raft_log_sha256": sha, "rewrites": {"R1_imports": removed, "R2_paths": n2, "R3": n3, "R4": n4, "R6_awaits": n6, "R7_test_helpers": n7}}))
+# ---- function slices: the leader's client-write response bookkeeping (three methods of LeaderState)
+ctxts = []
+for nm in ("drain_pending_client_writes", "handle_apply_completed", "drain_pending_writes_with_error"):
+    m = re.search(r"^    (async )?fn " + nm + r"\(", lsrc, re.M)
+    if not m:
+        fail("slice: fn " + nm + " not found in " + LS)
+    close = re.search(r"^    \)", lsrc[m.start():], re.M)
+    t = lsrc[m.start():m.start() + close.start()] + cut_block(lsrc, m.start() + close.start(), nm)
+    if nm == "handle_apply_completed":
+        if ".await" in t:
+            fail("slice: handle_apply_completed now awaits something (expected none)")
+        t = t.replace("async fn", "fn", 1)
+    t = re.sub(r"\bcrate::ApplyResult\b", "ApplyResult", t)
+    t = re.sub(r"\bstd::mem::take\b", "std::mem::take", t)
+    ctxts.append(t)
+client_txt = ("// GENERATED by gen.py -- verbatim slices of " + LS + " (drain_pending_client_writes, handle_apply_completed [async without awaits: de-sugared],\n"
+              "// drain_pending_writes_with_error); `crate::ApplyResult` -> shim ApplyResult\n"
+              "#![allow(dead_code, unused_variables, unused_mut, clippy::all)]\nuse crate::cshim::*;\n"
+              "impl<T> ClientSlice<T> {\n" + "\n\n".join(ctxts) + "\n}\n#[cfg(kani)]\n#[path = \"h_client.rs\"]\npub mod h;\n")
+dst6 = os.path.join(HERE, "src", "gen_client.rs")
+if not os.path.exists(dst6) or open(dst6).read() != client_txt:
+    open(dst6, "w").write(client_txt)
+client_sha = hashlib.sha256("\n".join(ctxts).encode()).hexdigest()
+print(json.dumps({"calculate_new_commit_index_sha256": leader_sha, "retrieve_to_be_synced_logs_for_peers_sha256": repl_sha, "follower_append_slices_sha256": foll_sha, "client_response_slices_sha256": client_sha, "buffered_raft_log_sha256": sha, "rewrites": {"R1_imports": removed, "R2_paths": n2, "R3": n3, "R4": n4, "R6_awaits": n6, "R7_test_helpers": n7}}))
